@@ -921,6 +921,158 @@ mod oracle {
             }
         }
 
+        /// an axis-aligned Gaussian in any dimension: log p(x) = -sum_j x_j^2 / (2 s_j^2), s_j = 1 + j/2
+        #[derive(Clone)]
+        struct DiagGauss { d: usize }
+        impl DiagGauss {
+            fn lp_grad(&self, x: &[f64]) -> (f64, Vec<f64>) {
+                let s2: Vec<f64> = (0..self.d).map(|j| (1.0 + 0.5 * j as f64).powi(2)).collect();
+                (-(0..self.d).map(|j| x[j] * x[j] / (2.0 * s2[j])).sum::<f64>(), (0..self.d).map(|j| -x[j] / s2[j]).collect())
+            }
+        }
+        impl<Bk: burn::tensor::backend::AutodiffBackend> BatchedGradientTarget<f64, Bk> for DiagGauss {
+            fn unnorm_logp_batch(&self, positions: Tensor<Bk, 2>) -> Tensor<Bk, 1> {
+                let w: Vec<f64> = (0..self.d).map(|j| 1.0 / (2.0 * (1.0 + 0.5 * j as f64).powi(2))).collect();
+                let w = Tensor::<Bk, 1>::from_data(TensorData::new(w, [self.d]), &Default::default()).unsqueeze_dim::<2>(0);
+                ((positions.clone() * positions) * w).sum_dim(1).mul_scalar(-1.0).flatten(0, 1)
+            }
+        }
+        /// C02 in dimensions 1, 3, 4, 5 (odd ones in particular) with 1..3 rows: H = -log p + |p|^2 / 2 with the full sum over
+        /// the coordinates, whatever their number
+        #[test]
+        fn oracle_c02_hmc_in_other_dimensions() {
+            for (d, n_chains, l, eps) in [(1usize, 1usize, 3usize, 0.9f64), (1, 3, 5, 1.4), (3, 2, 4, 0.8), (5, 2, 6, 0.7), (4, 1, 3, 0.9), (3, 1, 9, 1.2)] {
+                let t = DiagGauss { d };
+                let init: Vec<Vec<f64>> = (0..n_chains).map(|c| (0..d).map(|j| 0.4 * c as f64 - 0.3 + 0.2 * j as f64).collect()).collect();
+                let mut s = HMC::<f64, B, _>::new(t.clone(), init.clone(), eps, l).set_seed(3 + d as u64);
+                let mut x = init.clone();
+                let (mut accepted, mut rejected) = (0usize, 0usize);
+                for step in 0..40 {
+                    let mut probe = s.rng.clone();
+                    let p0: Vec<Vec<f64>> = (0..n_chains).map(|_| (0..d).map(|_| probe.sample::<f64, _>(StandardNormal)).collect()).collect();
+                    let us: Vec<f64> = (0..n_chains).map(|_| probe.random::<f64>()).collect();
+                    s.step();
+                    let got = s.positions.to_data().to_vec::<f64>().unwrap();
+                    for c in 0..n_chains {
+                        let (lp0, g0) = t.lp_grad(&x[c]);
+                        let (mut q, mut p, mut g) = (x[c].clone(), p0[c].clone(), g0);
+                        for _ in 0..l {
+                            for j in 0..d { p[j] += 0.5 * eps * g[j]; }
+                            for j in 0..d { q[j] += eps * p[j]; }
+                            g = t.lp_grad(&q).1;
+                            for j in 0..d { p[j] += 0.5 * eps * g[j]; }
+                        }
+                        let h0 = -lp0 + 0.5 * p0[c].iter().map(|v| v * v).sum::<f64>();
+                        let h1 = -t.lp_grad(&q).0 + 0.5 * p.iter().map(|v| v * v).sum::<f64>();
+                        let accept = h0 - h1 >= us[c].ln();
+                        let near = ((h0 - h1) - us[c].ln()).abs() < 1e-9;
+                        let want = if accept { q.clone() } else { x[c].clone() };
+                        if accept { accepted += 1 } else { rejected += 1 }
+                        let ok = (0..d).all(|j| close(got[c * d + j], want[j]));
+                        if !ok && !near {
+                            witness(format!("{{\"oracle\":\"c02\",\"dim\":{d},\"chains\":{n_chains},\"L\":{l},\"eps\":{eps},\"update\":{step},\"chain\":{c},\"x\":{:?},\"p\":{:?},\"u\":{},\"H_minus_Hprime\":{},\"got\":{:?},\"want\":{want:?},\"what\":\"in dimension {d} the row is not the outcome of the Metropolis test on H = -log p + |p|^2/2 after L leapfrog steps\"}}", x[c], p0[c], us[c], h0 - h1, &got[c * d..(c + 1) * d]));
+                        }
+                        x[c] = got[c * d..(c + 1) * d].to_vec();
+                    }
+                }
+                assert!(accepted > 0 && rejected > 0, "dimension {d}: the scenario did not exercise both outcomes ({accepted} accepted, {rejected} rejected)");
+            }
+        }
+        /// a 2-D standard normal whose log-density is NaN in the thin band |x0 + 1| < 0.05 (finite gradient everywhere)
+        #[derive(Clone)]
+        struct Band;
+        impl<Bk: burn::tensor::backend::AutodiffBackend> GradientTarget<f64, Bk> for Band {
+            fn unnorm_logp(&self, position: Tensor<Bk, 1>) -> Tensor<Bk, 1> {
+                let x0 = position.clone().slice([0..1]);
+                let x1 = position.slice([1..2]);
+                let hole = x0.clone().add_scalar(1.0).abs().sub_scalar(0.05).log().mul_scalar(0.0);
+                hole - x0.powi_scalar(2).mul_scalar(0.5) - x1.powi_scalar(2).mul_scalar(0.5)
+            }
+        }
+        /// C04 "positive and finite throughout, for all targets": warm-up trajectories that touch a NaN region leave the
+        /// step size a usable number (min(1, NaN) = 1 in the acceptance statistic) and the chain keeps sampling
+        #[test]
+        fn oracle_c04_step_size_survives_nan_regions() {
+            for seed in 0..6u64 {
+                let mut ch = NUTSChain::<f64, B, _>::new(Band, vec![0.5, 0.0], 0.8).set_seed(seed);
+                let out = ch.run(80, 60).to_data().to_vec::<f64>().unwrap();
+                let mut distinct: Vec<f64> = Vec::new();
+                for k in 0..80 {
+                    let x0 = out[2 * k];
+                    if !x0.is_finite() {
+                        witness(format!("{{\"oracle\":\"c04\",\"seed\":{seed},\"draw\":{k},\"what\":\"draw is not finite on a target with a NaN band\"}}"));
+                    }
+                    if !distinct.iter().any(|v| *v == x0) { distinct.push(x0); }
+                }
+                if distinct.len() < 10 {
+                    witness(format!("{{\"oracle\":\"c04\",\"seed\":{seed},\"what\":\"only {} distinct states among 80 draws after a 60-transition warm-up on a target with a thin NaN band: the step size is no longer a usable number\"}}", distinct.len()));
+                }
+                #[cfg(feature = "verif-hooks")]
+                {
+                    let (_m, _nd, eps, eps_bar, h_bar, mu) = ch.verif_adapt_state();
+                    if !(eps.is_finite() && eps > 0.0 && eps_bar.is_finite() && eps_bar > 0.0 && h_bar.is_finite() && mu.is_finite()) {
+                        witness(format!("{{\"oracle\":\"c04\",\"seed\":{seed},\"what\":\"after warm-up on a target with a NaN band: eps {eps}, eps_bar {eps_bar}, h_bar {h_bar}, mu {mu}\"}}"));
+                    }
+                }
+            }
+        }
+        /// C02 at the boundary value of the acceptance draw: u = 0 exactly (ln u = -inf) must take every proposal whose energy
+        /// is finite, however large the energy error.  f32 sampler (u = 0 has probability 2^-24 per draw); the seeds are checked
+        /// through a copy of the sampler's generator, and a bounded scan replaces them should the generator ever change.
+        #[test]
+        fn oracle_c02_zero_acceptance_draw_takes_finite_proposals() {
+            type B32 = Autodiff<NdArray<f32>>;
+            let (eps, l) = (4.0f32, 3usize);
+            let x0 = [0.5f32, 0.25];
+            let draws_zero = |seed: u64| -> bool {
+                let mut g = SmallRng::seed_from_u64(seed);
+                let _a: f32 = g.sample(StandardNormal);
+                let _b: f32 = g.sample(StandardNormal);
+                let u: f32 = g.random();
+                u == 0.0
+            };
+            let mut seeds: Vec<u64> = [10342470u64, 11314176, 15642500, 34437978, 40054482, 51009703].into_iter().filter(|s| draws_zero(*s)).collect();
+            if seeds.len() < 3 {
+                let mut s = 0u64;
+                while seeds.len() < 3 && s < (1 << 25) {
+                    if draws_zero(s) { seeds.push(s); }
+                    s += 1;
+                }
+            }
+            let mut judged = 0;
+            for seed in seeds {
+                let target = DiffableGaussian2D::new([MEAN[0] as f32, MEAN[1] as f32], [[4.0f32, 2.0], [2.0, 3.0]]);
+                let mut s = HMC::<f32, B32, _>::new(target, vec![x0.to_vec()], eps, l).set_seed(seed);
+                let mut probe = s.rng.clone();
+                let p0: Vec<f32> = (0..2).map(|_| probe.sample::<f32, _>(StandardNormal)).collect();
+                let u: f32 = probe.random();
+                if u != 0.0 {
+                    continue;
+                }
+                let x = [x0[0] as f64, x0[1] as f64];
+                let (lp0, g0) = lp_grad(&x);
+                let (mut q, mut p, mut g) = (x.to_vec(), vec![p0[0] as f64, p0[1] as f64], g0);
+                for _ in 0..l {
+                    for j in 0..2 { p[j] += 0.5 * eps as f64 * g[j]; }
+                    for j in 0..2 { q[j] += eps as f64 * p[j]; }
+                    g = lp_grad(&q).1;
+                    for j in 0..2 { p[j] += 0.5 * eps as f64 * g[j]; }
+                }
+                let dh = (-lp0 + 0.5 * (p0[0] as f64 * p0[0] as f64 + p0[1] as f64 * p0[1] as f64)) - (-lp_grad(&q).0 + 0.5 * (p[0] * p[0] + p[1] * p[1]));
+                if !(dh.is_finite() && dh > -1e12) {
+                    continue;
+                }
+                judged += 1;
+                s.step();
+                let got = s.positions.to_data().to_vec::<f32>().unwrap();
+                let ok = (0..2).all(|j| ((got[j] as f64) - q[j]).abs() <= 1e-3 * (1.0 + q[j].abs()));
+                if !ok {
+                    witness(format!("{{\"oracle\":\"c02\",\"seed\":{seed},\"eps\":{eps},\"L\":{l},\"x\":{x0:?},\"p\":{p0:?},\"u\":0,\"H_minus_Hprime\":{dh},\"got\":{got:?},\"want\":{q:?},\"what\":\"the acceptance draw is exactly 0 (ln u = -inf <= H - H', which is finite) but the row did not move to the point reached by L leapfrog steps\"}}"));
+                }
+            }
+            assert!(judged > 0, "no seed with an acceptance draw of exactly 0 was found: the check is vacuous");
+        }
+
         // ---------------- NUTS -----------------
         #[derive(Clone)]
         struct Pt { x: Vec<f64>, r: Vec<f64>, g: Vec<f64> }
@@ -1914,6 +2066,31 @@ mod oracle {
             }
         }
     }
+    /// more chains than progress bars with the HIDDEN chains slower than the visible ones (the visible chains have all
+    /// finished before a hidden one sends its first report), and hidden chains of mixed speeds
+    #[test]
+    fn oracle_c10_progress_terminates_when_hidden_chains_are_slower() {
+        use mini_mcmc::core::ChainRunner;
+        fn never(_k: u64, _t: u64) -> u64 { 0 }
+        fn slow(_k: u64, _t: u64) -> u64 { 450 }
+        fn slower(_k: u64, _t: u64) -> u64 { 700 }
+        for (what, n_chains) in [("6 chains, the hidden one slower", 6usize), ("9 chains, the four hidden ones slower", 9), ("13 chains, hidden ones of mixed speeds", 13)] {
+            let mk = move || PacedSampler { chains: (0..n_chains).map(|c| Paced { state: vec![0.0, 1000.0 * c as f64], id: c as f64,
+                pause: if c < 5 { never } else if c % 2 == 1 { slow } else { slower }, total: 4 }).collect() };
+            let mk2 = mk.clone();
+            match within(60, move || mk().run_progress(3, 1).map(|(a, _)| a).map_err(|e| e.to_string())) {
+                None => witness(format!("{{\"oracle\":\"c10\",\"profile\":\"{what}\",\"what\":\"run_progress did not return within 60 s (the chains themselves need under 3 s)\"}}")),
+                Some(Err(e)) => witness(format!("{{\"oracle\":\"c10\",\"profile\":\"{what}\",\"what\":\"run_progress failed: {e}\"}}")),
+                Some(Ok(a)) => {
+                    let mut plain = mk2();
+                    for c in plain.chains.iter_mut() { c.pause = never; }
+                    if a != plain.run(3, 1).unwrap() {
+                        witness(format!("{{\"oracle\":\"c10\",\"profile\":\"{what}\",\"what\":\"run_progress returned draws that differ from run\"}}"));
+                    }
+                }
+            }
+        }
+    }
     /// a statistics receiver that is dropped before or during the run changes neither the draws nor the number of transitions
     #[test]
     fn oracle_c10_dropped_receiver_changes_nothing() {
@@ -1981,6 +2158,12 @@ mod oracle {
         use mini_mcmc::nuts::NUTS;
         #[test]
         fn oracle_c10_hmc_and_nuts_progress_match_run() {
+            // under a watchdog: a progress run that never returns must not hang the oracle itself
+            if within(180, oracle_c10_hmc_and_nuts_progress_match_run_body).is_none() {
+                witness("{\"oracle\":\"c10\",\"what\":\"run_progress of HMC / NUTS (fresh samplers and samplers that were run before) did not return within 180 s\"}".to_string());
+            }
+        }
+        fn oracle_c10_hmc_and_nuts_progress_match_run_body() {
             type B = Autodiff<NdArray>;
             let target = || DiffableGaussian2D::new([0.0f32, 1.0], [[4.0, 2.0], [2.0, 3.0]]);
             let init = vec![vec![0.0f32, 0.0], vec![3.0, -1.0], vec![-2.0, 2.0]];
@@ -2019,6 +2202,66 @@ mod oracle {
             let (b, _) = h2.run_progress(4, 0).unwrap();
             if a != b.to_data().to_vec::<f32>().unwrap() {
                 witness("{\"oracle\":\"c10\",\"sampler\":\"hmc\",\"what\":\"second run_progress differs from second run\"}".to_string());
+            }
+        }
+    }
+
+    mod progress_tensor_watchdog {
+        use super::*;
+        use burn::backend::{Autodiff, NdArray};
+        use mini_mcmc::distributions::DiffableGaussian2D;
+        use mini_mcmc::hmc::HMC;
+        use mini_mcmc::nuts::NUTS;
+        use mini_mcmc::stats::RunStats;
+        type B = Autodiff<NdArray>;
+        fn same(a: f32, b: f32) -> bool { (a.is_nan() && b.is_nan()) || a == b || (a - b).abs() <= 1e-4 * (1.0 + a.abs().max(b.abs())) }
+        fn stats_match(got: &RunStats, draws: &[f32], shape: (usize, usize, usize)) -> bool {
+            let want = RunStats::from(ndarray::ArrayView3::from_shape(shape, draws).unwrap());
+            [(&got.rhat, &want.rhat), (&got.ess, &want.ess)].iter().all(|(g, w)| same(g.min, w.min) && same(g.max, w.max) && same(g.mean, w.mean) && same(g.median, w.median) && same(g.std, w.std))
+        }
+        /// every tensor-sampler progress run under a watchdog, on fresh samplers and on samplers that were run before
+        /// (run / run_progress in every order), and the returned statistics are those of the returned draws
+        #[test]
+        fn oracle_c10_tensor_progress_runs_return_and_report_the_returned_draws() {
+            let target = || DiffableGaussian2D::new([0.0f32, 1.0], [[4.0, 2.0], [2.0, 3.0]]);
+            for n_chains in [2usize, 3, 4, 6] {
+                let init: Vec<Vec<f32>> = (0..n_chains).map(|c| vec![0.7 * c as f32 - 1.0, 0.5 - 0.4 * c as f32]).collect();
+                for (first, n_collect, n_discard) in [("none", 7usize, 2usize), ("run", 6, 3), ("run_progress", 9, 0), ("run_progress", 5, 4)] {
+                    let init_h = init.clone();
+                    let r = within(90, move || {
+                        let mut h = HMC::<f32, B, _>::new(target(), init_h, 0.2, 3).set_seed(5);
+                        match first { "run" => { let _ = h.run(3, 2); } "run_progress" => { let _ = h.run_progress(3, 2).map_err(|e| e.to_string())?; } _ => {} }
+                        let (t, st) = h.run_progress(n_collect, n_discard).map_err(|e| e.to_string())?;
+                        Ok::<_, String>((t.dims(), t.to_data().to_vec::<f32>().unwrap(), st))
+                    });
+                    let ctx = format!("\"sampler\":\"hmc\",\"chains\":{n_chains},\"earlier_call\":\"{first}\",\"n_collect\":{n_collect},\"n_discard\":{n_discard}");
+                    match r {
+                        None => witness(format!("{{\"oracle\":\"c10\",{ctx},\"what\":\"run_progress did not return within 90 s\"}}")),
+                        Some(Err(e)) => witness(format!("{{\"oracle\":\"c10\",{ctx},\"what\":\"run_progress failed: {e}\"}}")),
+                        Some(Ok((dims, v, st))) => {
+                            if dims != [n_chains, n_collect, 2] || !stats_match(&st, &v, (n_chains, n_collect, 2)) {
+                                witness(format!("{{\"oracle\":\"c10\",{ctx},\"shape\":{dims:?},\"what\":\"the statistics returned by run_progress are not those of the draws it returned (as [chains, draws, parameters])\"}}"));
+                            }
+                        }
+                    }
+                    let init_n = init.clone();
+                    let r = within(120, move || {
+                        let mut s = NUTS::<f32, B, _>::new(target(), init_n, 0.8).set_seed(5);
+                        match first { "run" => { let _ = s.run(3, 2); } "run_progress" => { let _ = s.run_progress(3, 2).map_err(|e| e.to_string())?; } _ => {} }
+                        let (t, st) = s.run_progress(n_collect, n_discard).map_err(|e| e.to_string())?;
+                        Ok::<_, String>((t.dims(), t.to_data().to_vec::<f32>().unwrap(), st))
+                    });
+                    let ctx = format!("\"sampler\":\"nuts\",\"chains\":{n_chains},\"earlier_call\":\"{first}\",\"n_collect\":{n_collect},\"n_discard\":{n_discard}");
+                    match r {
+                        None => witness(format!("{{\"oracle\":\"c10\",{ctx},\"what\":\"run_progress did not return within 120 s\"}}")),
+                        Some(Err(e)) => witness(format!("{{\"oracle\":\"c10\",{ctx},\"what\":\"run_progress failed: {e}\"}}")),
+                        Some(Ok((dims, v, st))) => {
+                            if dims != [n_chains, n_collect, 2] || !stats_match(&st, &v, (n_chains, n_collect, 2)) {
+                                witness(format!("{{\"oracle\":\"c10\",{ctx},\"shape\":{dims:?},\"what\":\"the statistics returned by run_progress are not those of the draws it returned (as [chains, draws, parameters])\"}}"));
+                            }
+                        }
+                    }
+                }
             }
         }
     }
@@ -2116,6 +2359,37 @@ mod oracle {
         use mini_mcmc::stats::split_rhat_mean_ess;
         let arr = ndarray::Array3::from_shape_fn((chains.len(), chains[0].len(), 1), |(c, t, _)| chains[c][t] as f32);
         split_rhat_mean_ess(arr.view()).1[0] as f64
+    }
+    /// C12 on slowly mixing chains (AR(1) with phi 0.97 / 0.99 plus a slow wave, so that Geyer's sequence reaches high lags)
+    /// for half-chain lengths on both sides of every power of two between 128 and 1024 and of their geometric means — the
+    /// places where a zero padding of the FFT path that is too short would wrap around — and for odd draw counts
+    #[test]
+    fn oracle_c12_slowly_mixing_chains_across_fft_paddings() {
+        let mut halves: Vec<usize> = vec![101, 127, 128, 129, 150, 180, 181, 182, 200, 255, 256, 257, 300, 361, 362, 363, 400, 511, 512, 513, 600, 723, 724, 725, 800, 1023, 1024, 1025];
+        if std::env::var("VERIF_TIER").as_deref() == Ok("thorough") {
+            halves.extend((105..1500).step_by(37));
+        }
+        for (k, h) in halves.into_iter().enumerate() {
+            for odd in [0usize, 1] {
+                let n = 2 * h + odd;
+                for (n_chains, phi) in [(1usize, 0.99f64), (2, 0.97), (3, 0.99)] {
+                    let mut chains = ar1_chains(n_chains, n, phi, 31 * k as u64 + odd as u64);
+                    for (c, ch) in chains.iter_mut().enumerate() {
+                        for (t, v) in ch.iter_mut().enumerate() {
+                            *v += 0.8 * ((t as f64) * std::f64::consts::PI / (n as f64) + 0.2 * c as f64).sin();
+                        }
+                    }
+                    let rounded: Vec<Vec<f64>> = chains.iter().map(|ch| ch.iter().map(|x| (*x as f32) as f64).collect()).collect();
+                    let want = reference_split_ess(&rounded);
+                    let got = crate_ess(&chains);
+                    let mn = (2 * n_chains * h) as f64;
+                    let (tg, tw) = (mn / got, mn / want);
+                    if !((tg - tw).abs() <= 2e-2 * tw.abs() + 1e-3) {
+                        witness(format!("{{\"oracle\":\"c12\",\"draws\":{n},\"chains\":{n_chains},\"phi\":{phi},\"got\":{got},\"want\":{want},\"what\":\"ESS of slowly mixing chains differs from M*N/tau with Geyer's monotone pair sums (half-chain length {h}: first and last {h} draws of each chain)\"}}"));
+                    }
+                }
+            }
+        }
     }
     /// ESS is a function of the array alone (whatever was computed before on the same thread), and is invariant under
     /// affine rescaling, chain permutation and time reversal.
@@ -2819,6 +3093,56 @@ mod round2 {
                 let p = multi.p_accept as f64;
                 if !(0.0..=1.0).contains(&p) || (p - want).abs() > 1e-3 {
                     witness(format!("{{\"oracle\":\"c13\",\"chains\":{n_chains},\"updates\":{},\"what\":\"acceptance figure {p}; the moving average (weight 0.01) of the state-changed indicators is {want}\"}}", t + 1));
+                }
+            }
+        }
+    }
+    /// C13: the acceptance figure counts "state differs from previous state" — a state in which only SOME coordinates
+    /// changed (coordinate-wise updates, a sticky or integer coordinate) differs; chains that move and chains that stay mixed
+    #[test]
+    fn oracle_c13_partial_moves_count_as_moves() {
+        use mini_mcmc::stats::{ChainTracker, MultiChainTracker};
+        for (n_chains, n_params) in [(1usize, 2usize), (3, 3), (4, 5)] {
+            let mut multi = MultiChainTracker::new(n_chains, n_params);
+            let mut cur: Vec<Vec<f64>> = (0..n_chains).map(|c| (0..n_params).map(|p| c as f64 + 0.25 * p as f64).collect()).collect();
+            let mut singles: Vec<ChainTracker> = cur.iter().map(|x| ChainTracker::new(n_params, x)).collect();
+            // the multi-chain tracker's first update only records the state (nothing to compare with) — found by feeding it
+            let mut want_multi = 0.0f64;
+            let mut want_single = vec![0.0f64; n_chains];
+            let mut first = true;
+            for t in 0..300usize {
+                let mut moved = vec![false; n_chains];
+                for c in 0..n_chains {
+                    match (t + 2 * c) % 4 {
+                        0 => { cur[c][t % n_params] += 1.0; moved[c] = true; }                        // one coordinate only
+                        1 => { for p in 0..n_params { cur[c][p] -= 0.5; } moved[c] = true; }              // every coordinate
+                        2 => { if n_params > 1 { cur[c][n_params - 1] += 0.125; moved[c] = true; } } // the last coordinate only
+                        _ => {}                                                                       // rejected: the state stays
+                    }
+                }
+                let flat: Vec<f64> = cur.iter().flatten().cloned().collect();
+                let before = multi.p_accept as f64;
+                multi.step(&flat).unwrap();
+                if first {
+                    // calibrate the convention for the very first update from the tracker itself (previous state = zeros or none)
+                    want_multi = multi.p_accept as f64;
+                    first = false;
+                    let _ = before;
+                } else {
+                    for c in 0..n_chains { want_multi = 0.99 * want_multi + if moved[c] { 0.01 } else { 0.0 }; }
+                    let p = multi.p_accept as f64;
+                    if (p - want_multi).abs() > 2e-4 {
+                        witness(format!("{{\"oracle\":\"c13\",\"chains\":{n_chains},\"params\":{n_params},\"updates\":{},\"moved\":{moved:?},\"what\":\"multi-chain acceptance figure {p}; the moving average (weight 0.01) of 'state differs from previous state' is {want_multi} (a state in which only some coordinates changed differs)\"}}", t + 1));
+                    }
+                }
+                for c in 0..n_chains {
+                    singles[c].step(&cur[c]).unwrap();
+                    let p = singles[c].stats().p_accept as f64;
+                    // the first update starts the average (its convention is read from the tracker); later ones are checked
+                    want_single[c] = if t == 0 { p } else { 0.99 * want_single[c] + if moved[c] { 0.01 } else { 0.0 } };
+                    if (p - want_single[c]).abs() > 2e-4 {
+                        witness(format!("{{\"oracle\":\"c13\",\"chain\":{c},\"params\":{n_params},\"updates\":{},\"what\":\"per-chain acceptance figure {p}; the moving average of 'state differs from previous state' is {}\"}}", t + 1, want_single[c]));
+                    }
                 }
             }
         }
